@@ -52,6 +52,7 @@ func c15IsGlobalLoad(v ssa.Value, pkg, name string) bool {
 }
 
 func runC15(c *an.Ctx) {
+	c15ResolveRoles(c)
 	c15NotFoundBasic(c)
 	c15NotFoundHamt(c)
 	c15Childer(c)
@@ -77,17 +78,31 @@ func c15NotFoundBasic(c *an.Ctx) {
 	if !c.Need(it != nil, "io.Directory interface") {
 		return
 	}
+	env := &c17Env{p: p, fNode: fNode, fTot: p.Field(c16IO, "BasicDirectory", "totalLinks"), upd: p.Func(c16IO, "BasicDirectory", "updateEstimatedSize"), comp: p.Func(c16IO, "BasicDirectory", "computeEstimatedSizeAndTotalLinks"), mut: map[*ssa.Function]bool{}, byName: true}
 	n := 0
+	isIface := map[string]bool{}
 	for i := 0; i < it.NumMethods(); i++ {
-		f := p.Func(c16IO, "BasicDirectory", it.Method(i).Name())
-		if f == nil {
-			continue
-		}
+		isIface[it.Method(i).Name()] = true
+	}
+	for _, f := range p.Methods(c16IO, "BasicDirectory") {
 		res := f.Signature.Results()
 		if res.Len() == 0 || !an.IsErrorType(res.At(res.Len()-1).Type()) {
 			continue
 		}
-		lookups := an.Calls(f, an.M(md, "ProtoNode", "GetNodeLink"), an.M(md, "ProtoNode", "RemoveNodeLink"))
+		// lookups/removals on the node, directly or through a helper method
+		// of the directory that forwards the ProtoNode call and its error
+		var lookups []ssa.CallInstruction
+		var getOps []c17Op
+		for _, o := range env.ops(f, 2) {
+			if o.kind == "lookup" {
+				getOps = append(getOps, o)
+				if o.rawErr {
+					lookups = append(lookups, o.call)
+				}
+			} else if o.kind == "remove" && o.direct {
+				lookups = append(lookups, o.call)
+			}
+		}
 		if len(lookups) == 0 {
 			continue
 		}
@@ -100,16 +115,7 @@ func c15NotFoundBasic(c *an.Ctx) {
 			for _, k := range lookups {
 				errs := an.ErrResult(k)
 				al := an.Aliases(errs...)
-				notFound := func(want bool) an.EdgeSet {
-					e := an.CallEdges(f, an.M("errors", "", "Is"), 0, func(v ssa.Value) bool { return al[v] }, want)
-					// restrict to errors.Is(err, ErrLinkNotFound)
-					for _, cc := range an.Calls(f, an.M("errors", "", "Is")) {
-						if al[an.Args(cc)[0]] && !c15IsGlobalLoad(an.Args(cc)[1], an.Mod+"/"+md, "ErrLinkNotFound") {
-							return an.EdgeSet{}
-						}
-					}
-					return e
-				}
+				notFound := func(want bool) an.EdgeSet { return c17NotFoundEdges(f, al, want) }
 				if !an.Reaches(f, k, rs.At, nil, nil) {
 					continue
 				}
@@ -133,28 +139,77 @@ func c15NotFoundBasic(c *an.Ctx) {
 				ok = ok && len(notFound(false)) > 0
 				if !ok && an.Callee(k).Name == "RemoveNodeLink" {
 					// cannot be "not found": a successful GetNodeLink of the same name precedes it
-					for _, g := range an.Calls(f, an.M(md, "ProtoNode", "GetNodeLink")) {
-						if an.SameObj(an.Args(g)[0], an.Args(k)[0]) && an.OnNilEdgeOf(f, g, k) {
+					for _, g := range getOps {
+						if an.SameObj(g.name, an.Args(k)[0]) && an.OnNilEdgeOf(f, g.call, k) {
 							ok = true
 						}
 					}
+				}
+				if !ok && !isIface[f.Name()] && f.Object() != nil && !f.Object().Exported() {
+					// an unexported helper may hand the raw error on when all its
+					// callers are directory methods, which are examined with the
+					// helper's lookup summarised at the call (rawErr)
+					callers := an.LocalCallers(p.PkgFuncs(c16IO), f)
+					moved := len(callers) > 0
+					for _, cs := range callers {
+						r := cs.Parent().Signature.Recv()
+						if r == nil || !an.TypeIs(r.Type(), c16IO, "BasicDirectory") {
+							moved = false
+						}
+					}
+					ok = moved
 				}
 				c.Check(ok, "O1", "R-SIB", name, an.Callee(k).Name+"-error=>not-ErrLinkNotFound", rs.At.Pos(),
 					"raw ProtoNode error leaves the method only where it is not ErrLinkNotFound",
 					"BasicDirectory."+f.Name()+" can return merkledag.ErrLinkNotFound from "+an.Callee(k).Name+" unmapped: the Directory interface promises os.ErrNotExist for a missing name (callers test errors.Is(err, os.ErrNotExist); AddChild of a new name would fail)")
 			}
 		}
+		if !isIface[f.Name()] {
+			continue
+		}
+		if !mapped {
+			// the mapping may live in the helper that performs the lookup,
+			// whose error this method hands on
+			for _, g := range getOps {
+				if g.via == nil || g.rawErr {
+					continue
+				}
+				al := an.Aliases(an.ErrResult(g.call)...)
+				handsOn := false
+				for _, rs := range an.ResultSites(f, res.Len()-1) {
+					for _, r := range an.Roots(rs.Val, nil) {
+						if al[r] {
+							handsOn = true
+						}
+					}
+				}
+				if !handsOn {
+					continue
+				}
+				h := g.via
+				for _, k := range an.Calls(h, an.M(md, "ProtoNode", "GetNodeLink")) {
+					hal := an.Aliases(an.ErrResult(k)...)
+					nf := c17NotFoundEdges(h, hal, true)
+					for _, rs := range an.ResultSites(h, h.Signature.Results().Len()-1) {
+						isNE := func(v ssa.Value) bool { return c15IsGlobalLoad(v, "os", "ErrNotExist") }
+						if fnd, grd := an.ValueGuardedBy(h, k, rs.At, rs.Val, isNE, nf); fnd && grd && len(nf) > 0 {
+							mapped = true
+						}
+					}
+				}
+			}
+		}
 		c.Check(mapped, "O1", "R-SIB", name, "ErrLinkNotFound=>os.ErrNotExist", f.Pos(),
 			"os.ErrNotExist returned where errors.Is(err, ErrLinkNotFound)",
 			"BasicDirectory."+f.Name()+" has no return of os.ErrNotExist on the errors.Is(err, ErrLinkNotFound) edge")
 	}
-	c.Min("O1 raw error returns of BasicDirectory lookups", n, 2)
+	c.Min("O1 raw error returns of BasicDirectory lookups", n, 1)
 }
 
 // ---- O1 (hamt)
 func c15NotFoundHamt(c *an.Ctx) {
 	p := c.P
-	getV, swapV, ins := p.Func(c15H, "Shard", "getValue"), p.Func(c15H, "Shard", "swapValue"), p.Func(c15H, "childer", "insert")
+	getV, swapV, ins := c15GetFn(c), c15SwapFn(c), c15InsertFn(c)
 	fChildren := p.Field(c15H, "childer", "children")
 	if !c.Need(getV != nil && swapV != nil && ins != nil && fChildren != nil, "hamt.Shard.getValue, swapValue, childer.insert, childer.children") {
 		return
@@ -184,7 +239,6 @@ func c15NotFoundHamt(c *an.Ctx) {
 	}
 	if c.Need(value != nil, "link parameter of swapValue") {
 		isNil := an.NilEdges(swapV, []ssa.Value{value}, true)
-		notNil := an.NilEdges(swapV, []ssa.Value{value}, false)
 		found := false
 		for _, rs := range an.ResultSites(swapV, 1) {
 			if c15IsGlobalLoad(rs.Val, "os", "ErrNotExist") && an.GuardedBy(swapV, nil, rs.At, isNil) {
@@ -194,11 +248,6 @@ func c15NotFoundHamt(c *an.Ctx) {
 		c.Check(found, "O1", "R-DOM", an.FuncName(swapV), "remove-other-key=>os.ErrNotExist", swapV.Pos(),
 			"swapValue returns os.ErrNotExist where value == nil and the slot holds a different key",
 			"Shard.swapValue has no os.ErrNotExist return on the value == nil edge: removing a name whose hash slot holds another entry does not report 'not exist'")
-		for _, ns := range an.Calls(swapV, an.M(c15H, "", "NewShard"), an.M(c15H, "", "makeShard"), an.M(c15H, "", "NewShardValue")) {
-			c.Check(an.GuardedBy(swapV, nil, ns, notNil), "O1", "R-DOM", an.FuncName(swapV), "fork<=value!=nil", ns.Pos(),
-				"a sub-shard is created only when a value is inserted",
-				"Shard.swapValue can fork a slot into a sub-shard while removing (value == nil): removing a missing name would insert a nil value instead of reporting 'not exist'")
-		}
 	}
 	// insert
 	var lnk *ssa.Parameter
@@ -210,8 +259,17 @@ func c15NotFoundHamt(c *an.Ctx) {
 	if c.Need(lnk != nil, "link parameter of childer.insert") {
 		notNil := an.NilEdges(ins, []ssa.Value{lnk}, false)
 		isNil := an.NilEdges(ins, []ssa.Value{lnk}, true)
-		ok := len(an.FieldStores(ins, fChildren)) > 0
+		var grows []ssa.Instruction
 		for _, st := range an.FieldStores(ins, fChildren) {
+			grows = append(grows, st)
+		}
+		for _, call := range an.AllCalls(ins) {
+			if g := an.Callee(call).Static; g != nil && g != ins && an.Recv(call) == ssa.Value(ins.Params[0]) && len(an.FieldStores(g, fChildren)) > 0 {
+				grows = append(grows, call)
+			}
+		}
+		ok := len(grows) > 0
+		for _, st := range grows {
 			if !an.GuardedBy(ins, nil, st, notNil) {
 				ok = false
 			}
@@ -232,7 +290,7 @@ func c15NotFoundHamt(c *an.Ctx) {
 func c15Childer(c *an.Ctx) {
 	p := c.P
 	fCh, fLn, fBf := p.Field(c15H, "childer", "children"), p.Field(c15H, "childer", "links"), p.Field(c15H, "childer", "bitfield")
-	sliceIdx := p.Func(c15H, "childer", "sliceIndex")
+	sliceIdx := c15RoleFn("sliceIndex")
 	if !c.Need(fCh != nil && fLn != nil && fBf != nil && sliceIdx != nil, "childer.{children,links,bitfield,sliceIndex}") {
 		return
 	}
@@ -284,8 +342,30 @@ func c15Childer(c *an.Ctx) {
 						// slice index = sliceIndex(<bit argument>)
 						bitArg := an.Args(bc)[0]
 						for _, r := range an.Roots(argsC[0], nil) {
-							if sc, isSI := an.IsCallTo(r, an.M(c15H, "childer", "sliceIndex")); isSI && an.SameObj(an.Args(sc)[0], bitArg) {
+							if sc, isSI := an.IsCallTo(r, c15M("sliceIndex")); isSI && an.SameObj(an.Args(sc)[0], bitArg) {
 								bitOK = true
+							}
+						}
+						// both are parameters of this helper: the relation is
+						// established by its callers
+						if pi, ok1 := argsC[0].(*ssa.Parameter); ok1 && !bitOK {
+							if pb, ok2 := bitArg.(*ssa.Parameter); ok2 && pi.Parent() == f && pb.Parent() == f {
+								sites := an.LocalCallers(fns, f)
+								bitOK = len(sites) > 0
+								for _, cs := range sites {
+									ai, ab := an.ArgAt(cs, an.ParamIndex(f, pi)), an.ArgAt(cs, an.ParamIndex(f, pb))
+									rel := false
+									if ai != nil && ab != nil {
+										for _, r := range an.Roots(ai, nil) {
+											if sc, isSI := an.IsCallTo(r, c15M("sliceIndex")); isSI && an.SameObj(an.Args(sc)[0], ab) {
+												rel = true
+											}
+										}
+									}
+									if !rel {
+										bitOK = false
+									}
+								}
 							}
 						}
 						if okF, _ := an.MustFollow(f, st, []ssa.Instruction{bc}); !okF && !an.MustPrecede(f, st, []ssa.Instruction{bc}) {
@@ -325,8 +405,8 @@ func c15Childer(c *an.Ctx) {
 				"childer.children[i] is assigned but "+why+": a stale link or shard survives at that position and the entry resolves to outdated content")
 		}
 	}
-	c.Min("O2 replacements of childer.children", nSlice, 2)
-	c.Min("O2 element stores to childer.children", nElem, 2)
+	c.Min("O2 replacements of childer.children", nSlice, 1)
+	c.Min("O2 element stores to childer.children", nElem, 1)
 }
 
 type c15Elem struct {
@@ -473,7 +553,7 @@ func c15TypeEdges(f *ssa.Function, call ssa.CallInstruction, ks ...constant.Valu
 func c15LinkTypes(c *an.Ctx) {
 	p := c.P
 	kShard, kValue := c15LinkTypeConst(c, "shardLink"), c15LinkTypeConst(c, "shardValueLink")
-	clt := p.Func(c15H, "Shard", "childLinkType")
+	clt := c15RoleFn("childLinkType")
 	if !c.Need(kShard != nil && kValue != nil && clt != nil, "hamt.shardLink, shardValueLink, Shard.childLinkType") {
 		return
 	}
@@ -485,8 +565,8 @@ func c15LinkTypes(c *an.Ctx) {
 			c.Check(len(known) > 0, "O3", "R-EXH", an.FuncName(f), "childLinkType-result-distinguished", call.Pos(),
 				"the link type is compared with shardLink / shardValueLink",
 				"the result of childLinkType is not compared with shardLink or shardValueLink: shard links and value links are treated alike (a sub-shard would be listed as an entry or an entry descended into)")
-			if f.Name() != "walkChildren" {
-				continue
+			if !an.Reaches(f, call, call, nil, nil) {
+				continue // not classifying the children in a loop
 			}
 			// exhaustive: without taking a known-type edge the walk neither
 			// continues with the next child nor succeeds
@@ -503,181 +583,310 @@ func c15LinkTypes(c *an.Ctx) {
 				"walkChildren can continue past a child link that is neither a shard link nor a value link without reporting an error: entries of that child silently disappear from Links/EnumLinksAsync")
 		}
 	}
-	c.Min("O3 uses of childLinkType", n, 3)
+	c.Min("O3 uses of childLinkType", n, 1)
 }
 
-// ---- O4
+// ---- O4 (and the "fork only when inserting" part of O1), over swapValue and
+// the Shard methods it delegates to
+
+// c15Fam is swapValue plus the Shard helper methods reachable from it.
+type c15Fam struct {
+	root *ssa.Function
+	fns  []*ssa.Function
+}
+
+func (fm *c15Fam) callSites(h *ssa.Function) []ssa.CallInstruction {
+	return an.LocalCallers(fm.fns, h)
+}
+
+// linkParam returns f's parameter of type *ipld.Link (the value being stored), if any.
+func c15LinkParam(f *ssa.Function) *ssa.Parameter {
+	for _, par := range f.Params {
+		if an.TypeIs(par.Type(), "github.com/ipfs/go-ipld-format", "Link") {
+			return par
+		}
+	}
+	return nil
+}
+
+// holds: `at` in f is reached only across edges(f); when f is a helper without
+// such a guard the condition must hold at every call site of f in the family.
+func (fm *c15Fam) holds(f *ssa.Function, at ssa.Instruction, edges func(*ssa.Function) an.EdgeSet, depth int) bool {
+	if e := edges(f); len(e) > 0 && an.GuardedBy(f, nil, at, e) {
+		return true
+	}
+	if f == fm.root || depth >= 2 {
+		return false
+	}
+	sites := fm.callSites(f)
+	if len(sites) == 0 {
+		return false
+	}
+	for _, cs := range sites {
+		if !fm.holds(cs.Parent(), cs, edges, depth+1) {
+			return false
+		}
+	}
+	return true
+}
+
+// argIs: value v of f satisfies pred, or is a parameter of the helper f whose
+// actual argument satisfies pred at every call site.
+func (fm *c15Fam) argIs(f *ssa.Function, v ssa.Value, pred func(*ssa.Function, ssa.Value) bool, depth int) bool {
+	if pred(f, v) {
+		return true
+	}
+	par, ok := v.(*ssa.Parameter)
+	if !ok || par.Parent() != f || f == fm.root || depth >= 2 {
+		return false
+	}
+	sites := fm.callSites(f)
+	if len(sites) == 0 {
+		return false
+	}
+	for _, cs := range sites {
+		a := an.ArgAt(cs, an.ParamIndex(f, par))
+		if a == nil || !fm.argIs(cs.Parent(), a, pred, depth+1) {
+			return false
+		}
+	}
+	return true
+}
+
 func c15Swap(c *an.Ctx) {
 	p := c.P
-	swapV := p.Func(c15H, "Shard", "swapValue")
+	swapV := c15SwapFn(c)
 	fTS, fB, fKey, fVal, fCons := p.Field(c15H, "Shard", "tableSize"), p.Field(c15H, "Shard", "builder"), p.Field(c15H, "Shard", "key"), p.Field(c15H, "Shard", "val"), p.Field(c15H, "hashBits", "consumed")
-	if !c.Need(swapV != nil && fTS != nil && fB != nil && fKey != nil && fVal != nil && fCons != nil, "swapValue, Shard.{tableSize,builder,key,val}, hashBits.consumed") {
+	if !c.Need(swapV != nil && fTS != nil && fB != nil && fKey != nil && fVal != nil && fCons != nil, "swapValue (Shard method consuming hash bits and inserting into the childer), Shard.{tableSize,builder,key,val}, hashBits.consumed") {
 		return
+	}
+	// the family: swapValue and the Shard methods it calls (two levels)
+	fm := &c15Fam{root: swapV, fns: []*ssa.Function{swapV}}
+	inFam := map[*ssa.Function]bool{swapV: true}
+	for level := 0; level < 2; level++ {
+		for _, f := range append([]*ssa.Function{}, fm.fns...) {
+			for _, call := range an.AllCalls(f) {
+				g := an.Callee(call).Static
+				if g == nil || inFam[g] || g.Blocks == nil || g.Signature.Recv() == nil || !an.TypeIs(g.Signature.Recv().Type(), c15H, "Shard") {
+					continue
+				}
+				// only helpers that take part in restructuring the trie
+				if len(an.Calls(g, c15M("set"), c15M("setLink"), c15M("rm"), an.M(c15H, "", "NewShard"))) == 0 {
+					continue
+				}
+				inFam[g] = true
+				fm.fns = append(fm.fns, g)
+			}
+		}
 	}
 	name := an.FuncName(swapV)
-	recv := swapV.Params[0]
-	var hv, key *ssa.Parameter
-	for _, par := range swapV.Params[1:] {
-		if an.TypeIs(par.Type(), c15H, "hashBits") {
-			hv = par
-		}
-		if an.IsString(par.Type()) {
-			key = par
-		}
-	}
-	if !c.Need(hv != nil && key != nil, "hashBits and key parameters of swapValue") {
-		return
-	}
 	fieldOf := func(v ssa.Value, fld *types.Var, base ssa.Value) bool {
 		fl, b := an.LoadedField(v)
 		return fl == fld && (base == nil || an.SameObj(b, base))
 	}
+	valueNil := func(want bool) func(*ssa.Function) an.EdgeSet {
+		return func(f *ssa.Function) an.EdgeSet {
+			if lp := c15LinkParam(f); lp != nil {
+				return an.NilEdges(f, []ssa.Value{lp}, want)
+			}
+			return an.EdgeSet{}
+		}
+	}
 	// fork
 	nFork := 0
-	for _, ns := range an.Calls(swapV, an.M(c15H, "", "NewShard")) {
-		nFork++
-		sub := an.Result(ns, 0)
-		c.Check(fieldOf(an.Args(ns)[1], fTS, recv), "O4", "R-FLOW", name, "fork:NewShard(size=ds.tableSize)", ns.Pos(),
-			"sub-shard created with the receiver's table size",
-			"the sub-shard created when two names share a slot is not created with ds.tableSize: its links use a different prefix width / bits per level than the rest of the tree, so names below it do not resolve after a reload")
-		okB := false
-		for _, st := range an.FieldStores(swapV, fB) {
-			_, b := an.FieldOf(st.Addr)
-			for _, s := range sub {
-				if an.SameObj(b, s) && fieldOf(st.Val, fB, recv) {
-					okB = true
-				}
+	for _, f := range fm.fns {
+		recv := f.Params[0]
+		var hv, key *ssa.Parameter
+		for _, par := range f.Params[1:] {
+			if an.TypeIs(par.Type(), c15H, "hashBits") {
+				hv = par
+			}
+			if an.IsString(par.Type()) {
+				key = par
 			}
 		}
-		c.Check(okB, "O4", "R-FLOW", name, "fork:builder-copied", ns.Pos(), "sub-shard inherits the CID builder",
-			"the sub-shard created on a collision does not get ds.builder: its node is hashed with a different CID builder than the rest of the directory")
-		// the displaced entry is re-inserted with its own key/value and consumed bits
-		var displaced ssa.Value // the value child found in the slot
-		okRe := false
-		for _, rc := range an.LocalCallers([]*ssa.Function{swapV}, swapV) {
-			isSub := false
-			for _, s := range sub {
-				if an.SameObj(an.Recv(rc), s) {
-					isSub = true
+		for _, ns := range an.Calls(f, an.M(c15H, "", "NewShard")) {
+			nFork++
+			fname := an.FuncName(f)
+			c.Check(fm.holds(f, ns, valueNil(false), 0), "O1", "R-DOM", fname, "fork<=value!=nil", ns.Pos(),
+				"a sub-shard is created only when a value is inserted",
+				"Shard.swapValue can fork a slot into a sub-shard while removing (value == nil): removing a missing name would insert a nil value instead of reporting 'not exist'")
+			sub := an.Result(ns, 0)
+			c.Check(fieldOf(an.Args(ns)[1], fTS, recv), "O4", "R-FLOW", fname, "fork:NewShard(size=ds.tableSize)", ns.Pos(),
+				"sub-shard created with the receiver's table size",
+				"the sub-shard created when two names share a slot is not created with ds.tableSize: its links use a different prefix width / bits per level than the rest of the tree, so names below it do not resolve after a reload")
+			okB := false
+			for _, st := range an.FieldStores(f, fB) {
+				_, b := an.FieldOf(st.Addr)
+				for _, s := range sub {
+					if an.SameObj(b, s) && fieldOf(st.Val, fB, recv) {
+						okB = true
+					}
 				}
 			}
-			if !isSub {
-				continue
-			}
-			args := an.Args(rc) // ctx, hv, key, value
-			if len(args) != 4 || args[1] == ssa.Value(hv) {
-				continue
-			}
-			nh, isNH := an.IsCallTo(args[1], an.M(c15H, "", "newConsumedHashBits"))
-			if !isNH {
-				continue
-			}
-			flK, bK := an.LoadedField(args[2])
-			flV, bV := an.LoadedField(args[3])
-			flH, bH := an.LoadedField(nh.Call.Args[0])
-			if flK == fKey && flV == fVal && flH == fKey && an.SameObj(bK, bV) && an.SameObj(bK, bH) && fieldOf(nh.Call.Args[1], fCons, hv) {
-				displaced = bK
-				okRe = true
-			}
-		}
-		_ = displaced
-		c.Check(okRe, "O4", "R-FLOW", name, "fork:displaced-entry-reinserted(key,val,consumed)", ns.Pos(),
-			"displaced entry re-inserted under its own key and value with hash bits consumed up to this level",
-			"on a slot collision the displaced entry is not re-inserted into the sub-shard as swapValue(newConsumedHashBits(old.key, hv.consumed), old.key, old.val): it lands in the wrong slot (or is lost) and can no longer be found")
-		okNew := false
-		for _, rc := range an.LocalCallers([]*ssa.Function{swapV}, swapV) {
-			for _, s := range sub {
-				args := an.Args(rc)
-				if an.SameObj(an.Recv(rc), s) && len(args) == 4 && args[1] == ssa.Value(hv) && args[2] == ssa.Value(key) {
-					okNew = true
+			c.Check(okB, "O4", "R-FLOW", fname, "fork:builder-copied", ns.Pos(), "sub-shard inherits the CID builder",
+				"the sub-shard created on a collision does not get ds.builder: its node is hashed with a different CID builder than the rest of the directory")
+			okRe, okNew := false, false
+			for _, rc := range an.LocalCallers([]*ssa.Function{f}, swapV) {
+				isSub := false
+				for _, s := range sub {
+					if an.SameObj(an.Recv(rc), s) {
+						isSub = true
+					}
+				}
+				args := an.Args(rc) // ctx, hv, key, value
+				if !isSub || len(args) != 4 || hv == nil {
+					continue
+				}
+				if args[1] == ssa.Value(hv) {
+					if key != nil && args[2] == ssa.Value(key) {
+						okNew = true
+					}
+					continue
+				}
+				nh, isNH := an.IsCallTo(args[1], c15M("newConsumedHashBits"))
+				if !isNH {
+					continue
+				}
+				flK, bK := an.LoadedField(args[2])
+				flV, bV := an.LoadedField(args[3])
+				flH, bH := an.LoadedField(nh.Call.Args[0])
+				if flK == fKey && flV == fVal && flH == fKey && an.SameObj(bK, bV) && an.SameObj(bK, bH) && fieldOf(nh.Call.Args[1], fCons, hv) {
+					okRe = true
 				}
 			}
+			c.Check(okRe, "O4", "R-FLOW", fname, "fork:displaced-entry-reinserted(key,val,consumed)", ns.Pos(),
+				"displaced entry re-inserted under its own key and value with hash bits consumed up to this level",
+				"on a slot collision the displaced entry is not re-inserted into the sub-shard as swapValue(newConsumedHashBits(old.key, hv.consumed), old.key, old.val): it lands in the wrong slot (or is lost) and can no longer be found")
+			c.Check(okNew, "O4", "R-FLOW", fname, "fork:new-entry-inserted(hv,key,value)", ns.Pos(),
+				"new entry inserted into the sub-shard with the running hash bits", "on a slot collision the new entry is not inserted into the sub-shard with the running hash bits and its key")
 		}
-		c.Check(okNew, "O4", "R-FLOW", name, "fork:new-entry-inserted(hv,key,value)", ns.Pos(),
-			"new entry inserted into the sub-shard with the running hash bits", "on a slot collision the new entry is not inserted into the sub-shard with the running hash bits and its key")
 	}
-	c.Min("O4 forks in swapValue", nFork, 1)
+	c.Min("O4 forks in swapValue and its helpers", nFork, 1)
 	// collapse
-	var value *ssa.Parameter
-	for _, par := range swapV.Params {
-		if an.TypeIs(par.Type(), "github.com/ipfs/go-ipld-format", "Link") {
-			value = par
-		}
-	}
-	isNil := an.NilEdges(swapV, []ssa.Value{value}, true)
-	lenEdges := func(k int64) an.EdgeSet {
-		var lens []ssa.Value
-		for _, lc := range an.Calls(swapV, an.M(c15H, "childer", "length")) {
-			lens = append(lens, an.CallValue(lc))
-		}
-		al := an.Aliases(lens...)
-		return an.CmpEdges(swapV, func(op token.Token, a, b ssa.Value) (bool, bool) {
-			if op != token.EQL && op != token.NEQ {
-				return false, false
+	lenEdges := func(k int64) func(*ssa.Function) an.EdgeSet {
+		return func(f *ssa.Function) an.EdgeSet {
+			var lens []ssa.Value
+			for _, lc := range an.Calls(f, c15M("length")) {
+				lens = append(lens, an.CallValue(lc))
 			}
-			x, y := a, b
-			if al[y] {
-				x, y = y, x
+			if len(lens) == 0 {
+				return an.EdgeSet{}
 			}
-			if !al[x] {
-				return false, false
-			}
-			kv, ok := an.ConstOf(y)
-			if !ok {
-				return false, false
-			}
-			if v, exact := constant.Int64Val(kv); !exact || v != k {
-				return false, false
-			}
-			return op == token.EQL, op == token.NEQ
-		})
-	}
-	exists := func(what string, calls []ssa.CallInstruction, guards ...an.EdgeSet) bool {
-		for _, call := range calls {
-			ok := true
-			for _, g := range guards {
-				if len(g) == 0 || !an.GuardedBy(swapV, nil, call, g) {
-					ok = false
+			al := an.Aliases(lens...)
+			return an.CmpEdges(f, func(op token.Token, a, b ssa.Value) (bool, bool) {
+				if op != token.EQL && op != token.NEQ {
+					return false, false
 				}
-			}
-			if ok {
-				return true
+				x, y := a, b
+				if al[y] {
+					x, y = y, x
+				}
+				if !al[x] {
+					return false, false
+				}
+				kv, ok := an.ConstOf(y)
+				if !ok {
+					return false, false
+				}
+				if v, exact := constant.Int64Val(kv); !exact || v != k {
+					return false, false
+				}
+				return op == token.EQL, op == token.NEQ
+			})
+		}
+	}
+	isVal := func(f *ssa.Function) an.EdgeSet {
+		return an.CallEdges(f, c15M("isValueNode"), -1, nil, true)
+	}
+	kValue := c15LinkTypeConst(c, "shardValueLink")
+	isValLink := func(f *ssa.Function) an.EdgeSet {
+		e := an.EdgeSet{}
+		for _, cl := range an.Calls(f, c15M("childLinkType")) {
+			e = e.Union(c15TypeEdges(f, cl, kValue))
+		}
+		return e
+	}
+	exists := func(m an.Matcher, guards ...func(*ssa.Function) an.EdgeSet) bool {
+		for _, f := range fm.fns {
+			for _, call := range an.Calls(f, m) {
+				ok := true
+				for _, g := range guards {
+					if !fm.holds(f, call, g, 0) {
+						ok = false
+					}
+				}
+				if ok {
+					return true
+				}
 			}
 		}
 		return false
 	}
-	rm := an.Calls(swapV, an.M(c15H, "childer", "rm"))
-	set := an.Calls(swapV, an.M(c15H, "childer", "set"))
-	setLink := an.Calls(swapV, an.M(c15H, "childer", "setLink"))
-	c.Check(exists("rm", rm, isNil, lenEdges(0)), "O4", "R-DOM", name, "collapse:length==0=>rm", swapV.Pos(),
+	c.Check(exists(c15M("rm"), valueNil(true), lenEdges(0)), "O4", "R-DOM", name, "collapse:length==0=>rm", swapV.Pos(),
 		"an emptied sub-shard is removed", "swapValue has no childer.rm on the value==nil && sub.length()==0 edge: empty sub-shards stay in the tree, so the layout (and CID) depends on the edit history")
-	isVal := an.CallEdges(swapV, an.M(c15H, "Shard", "isValueNode"), -1, nil, true)
-	c.Check(exists("set", set, isNil, lenEdges(1), isVal), "O4", "R-DOM", name, "collapse:length==1=>set(value-child)", swapV.Pos(),
+	c.Check(exists(c15M("set"), valueNil(true), lenEdges(1), isVal), "O4", "R-DOM", name, "collapse:length==1=>set(value-child)", swapV.Pos(),
 		"a sub-shard left with one loaded value child is replaced by that child", "swapValue has no childer.set(valueChild) on the value==nil && sub.length()==1 && child.isValueNode() edge: single-entry sub-shards are not collapsed, so the layout (and CID) depends on the edit history")
-	kValue := c15LinkTypeConst(c, "shardValueLink")
-	var isValLink an.EdgeSet = an.EdgeSet{}
-	for _, cl := range an.Calls(swapV, an.M(c15H, "Shard", "childLinkType")) {
-		isValLink = isValLink.Union(c15TypeEdges(swapV, cl, kValue))
-	}
-	c.Check(exists("setLink", setLink, isNil, lenEdges(1), isValLink), "O4", "R-DOM", name, "collapse:length==1=>setLink(value-link)", swapV.Pos(),
+	c.Check(exists(c15M("setLink"), valueNil(true), lenEdges(1), isValLink), "O4", "R-DOM", name, "collapse:length==1=>setLink(value-link)", swapV.Pos(),
 		"a sub-shard left with one unloaded value link is replaced by that link", "swapValue has no childer.setLink(valueLink) on the value==nil && sub.length()==1 && linkType==shardValueLink edge: single-entry sub-shards loaded from disk are not collapsed")
-	// the collapse puts the single child at the slice index of the sub-shard
-	si := an.Calls(swapV, an.M(c15H, "childer", "sliceIndex"))
-	okIdx := len(si) > 0
-	for _, call := range append(append([]ssa.CallInstruction{}, set...), setLink...) {
-		args := an.Args(call)
-		isSI := false
-		for _, s := range si {
-			if args[len(args)-1] == ssa.Value(an.CallValue(s)) {
-				isSI = true
+	// set/setLink put the child at the slice index of the hashed slot
+	isSliceIdx := func(f *ssa.Function, v ssa.Value) bool {
+		_, ok := an.IsCallTo(v, c15M("sliceIndex"))
+		return ok
+	}
+	okIdx, nSet := true, 0
+	for _, f := range fm.fns {
+		for _, call := range an.Calls(f, c15M("set"), c15M("setLink")) {
+			nSet++
+			args := an.Args(call)
+			if !fm.argIs(f, args[len(args)-1], isSliceIdx, 0) {
+				okIdx = false
 			}
 		}
-		if !isSI {
-			okIdx = false
+	}
+	c.Check(okIdx && nSet > 0, "O4", "R-FLOW", name, "set/setLink-at-sliceIndex(idx)", swapV.Pos(), "children are replaced at the slice index of the hashed slot",
+		"swapValue replaces a child at an index that is not childer.sliceIndex(idx) of the slot the key hashes to: another entry is overwritten")
+}
+
+// c15SwapFn finds swapValue by role: the Shard method that consumes hash bits
+// (hashBits.Next) and takes the link to store (a *Link parameter).
+func c15SwapFn(c *an.Ctx) *ssa.Function {
+	if f := c.P.Func(c15H, "Shard", "swapValue"); f != nil {
+		return f
+	}
+	var found *ssa.Function
+	for _, f := range c.P.Methods(c15H, "Shard") {
+		if len(an.Calls(f, an.M(c15H, "hashBits", "Next"))) > 0 && c15LinkParam(f) != nil {
+			if found != nil {
+				return nil
+			}
+			found = f
 		}
 	}
-	c.Check(okIdx, "O4", "R-FLOW", name, "set/setLink-at-sliceIndex(idx)", swapV.Pos(), "children are replaced at the slice index of the hashed slot",
-		"swapValue replaces a child at an index that is not childer.sliceIndex(idx) of the slot the key hashes to: another entry is overwritten")
+	return found
+}
+
+// c15GetFn finds getValue by role: the Shard method that consumes hash bits and
+// takes a callback on the found *Shard.
+func c15GetFn(c *an.Ctx) *ssa.Function {
+	if f := c.P.Func(c15H, "Shard", "getValue"); f != nil {
+		return f
+	}
+	var found *ssa.Function
+	for _, f := range c.P.Methods(c15H, "Shard") {
+		if len(an.Calls(f, an.M(c15H, "hashBits", "Next"))) == 0 || c15LinkParam(f) != nil {
+			continue
+		}
+		for _, par := range f.Params {
+			if sig, ok := par.Type().Underlying().(*types.Signature); ok && sig.Params().Len() == 1 && an.TypeIs(sig.Params().At(0).Type(), c15H, "Shard") {
+				if found != nil && found != f {
+					return nil
+				}
+				found = f
+			}
+		}
+	}
+	return found
 }
 
 // ---- O5
@@ -775,7 +984,7 @@ func c15Prefix(c *an.Ctx) {
 				"link name stripped at maxpadlen", "a link name is cut at an offset that is not Shard.maxpadlen: the entry name keeps part of the prefix or loses its first characters for some shard width")
 		})
 	}
-	c.Min("O5 prefix strip sites", nStrip, 2)
+	c.Min("O5 prefix strip sites", nStrip, 1)
 	// hash bits per level
 	nNext := 0
 	for _, f := range p.Methods(c15H, "Shard") {
@@ -786,7 +995,7 @@ func c15Prefix(c *an.Ctx) {
 				"each level consumes the receiver's tableSizeLg2 hash bits", "a Shard method consumes a number of hash bits that is not its own tableSizeLg2: lookups and insertions descend through different slots, so stored names are not found")
 		}
 	}
-	c.Min("O5 hashBits.Next calls in Shard methods", nNext, 2)
+	c.Min("O5 hashBits.Next calls in Shard methods", nNext, 1)
 }
 
 // c15Vararg returns the single element of a one-element variadic argument.
@@ -830,13 +1039,31 @@ func c15Conversions(c *an.Ctx) {
 	}
 	// (a) the per-entry insertion of a conversion
 	nIns := 0
-	for _, conv := range []struct{ typ, fn string }{{"BasicDirectory", "switchToSharding"}, {"HAMTDirectory", "switchToBasic"}} {
-		f := p.Func(c16IO, conv.typ, conv.fn)
-		if !c.Need(f != nil, conv.typ+"."+conv.fn) {
+	// conversion functions by role: a method of one directory type returning the other
+	for _, f := range fns {
+		if f.Parent() != nil || f.Signature.Recv() == nil || f.Signature.Results().Len() == 0 {
+			continue
+		}
+		rt, dt := f.Signature.Recv().Type(), f.Signature.Results().At(0).Type()
+		b2h := an.TypeIs(rt, c16IO, "BasicDirectory") && an.TypeIs(dt, c16IO, "HAMTDirectory")
+		h2b := an.TypeIs(rt, c16IO, "HAMTDirectory") && an.TypeIs(dt, c16IO, "BasicDirectory")
+		if !b2h && !h2b {
 			continue
 		}
 		for _, g := range an.WithClosures(f) {
-			for _, call := range an.Calls(g, an.M(c15H, "Shard", "SetLink"), an.M(c16IO, "BasicDirectory", "addLinkChild"), an.M(c15H, "Shard", "Set"), an.M(c16IO, "BasicDirectory", "AddChild")) {
+			for _, call := range an.AllCalls(g) {
+				// an insertion, by role: a static call taking an entry name and a *Link
+				if an.Callee(call).Static == nil {
+					continue
+				}
+				hasName, hasLink := false, false
+				for _, a := range an.Args(call) {
+					hasName = hasName || an.IsString(a.Type())
+					hasLink = hasLink || an.TypeIs(a.Type(), "github.com/ipfs/go-ipld-format", "Link")
+				}
+				if !hasName || !hasLink || an.ErrResult(call) == nil && an.Callee(call).Static.Signature.Results().Len() == 0 {
+					continue
+				}
 				nIns++
 				args := an.Args(call)
 				var nm, lk ssa.Value
@@ -859,6 +1086,33 @@ func c15Conversions(c *an.Ctx) {
 				// an insertion error aborts the conversion
 				errNonNil := an.NilEdges(g, an.ErrResult(call), false)
 				okErr := len(errNonNil) > 0
+				if !okErr {
+					// `return insert(...)`: the error is handed on untested
+					al := an.Aliases(an.ErrResult(call)...)
+					okErr = true
+					nRet := 0
+					for _, rs := range an.ResultSites(g, g.Signature.Results().Len()-1) {
+						if !an.Reaches(g, call, rs.At, nil, nil) {
+							continue
+						}
+						nRet++
+						fwd := false
+						for _, r := range an.Roots(rs.Val, nil) {
+							if al[r] {
+								fwd = true
+							}
+						}
+						if !fwd {
+							okErr = false
+						}
+					}
+					if nRet == 0 || an.Reaches(g, call, call, nil, nil) {
+						okErr = false
+					}
+					c.Check(okErr, "O6", "R-DOM", an.FuncName(g), an.Callee(call).Name+"-error-aborts", call.Pos(),
+						"the insertion error is returned as is", "a Basic<->HAMT conversion goes on (or reports success) after inserting one entry failed: the converted directory silently lacks entries")
+					continue
+				}
 				for _, rs := range an.ResultSites(g, g.Signature.Results().Len()-1) {
 					if an.IsNilConst(rs.Val) && an.EdgeLeadsTo(errNonNil, rs.At, nil, nil) {
 						okErr = false
@@ -872,7 +1126,7 @@ func c15Conversions(c *an.Ctx) {
 			}
 		}
 	}
-	c.Min("O6 per-entry insertions in conversions", nIns, 2)
+	c.Min("O6 per-entry insertions in conversions", nIns, 1)
 	// (b) the requested operation is applied to the new directory before it is installed
 	nSites := 0
 	for _, f := range fns {
@@ -909,7 +1163,7 @@ func c15Conversions(c *an.Ctx) {
 				"DynamicDirectory."+op+" installs the converted directory without having applied "+op+" with the caller's operands to it successfully: the requested edit is lost (or a half-edited directory is installed after an error)")
 		}
 	}
-	c.Min("O6 conversion sites", nSites, 3)
+	c.Min("O6 conversion sites", nSites, 1)
 }
 
 // ---- O7
@@ -921,13 +1175,6 @@ func c15Enumerations(c *an.Ctx) {
 	}
 	n := 0
 	for _, f := range p.PkgFuncs(c15H) {
-		root := f
-		for root.Parent() != nil {
-			root = root.Parent()
-		}
-		if root.Name() != "walkChildren" && root.Name() != "ForEachLink" && root.Name() != "walkTrie" {
-			continue
-		}
 		for _, call := range an.AllCalls(f) {
 			// dynamic call of a func(*Link) error value
 			if an.Callee(call).Fn != nil || an.Callee(call).Builtin != "" || call.Common().IsInvoke() {
@@ -956,7 +1203,7 @@ func c15Enumerations(c *an.Ctx) {
 				"an enumeration path of the HAMT hands a link to the callback whose Name was not set from Shard.key on every path: Links/ForEachLink/EnumLinksAsync report names with the hex prefix (or stale names), so the enumeration APIs disagree with Find")
 		}
 	}
-	c.Min("O7 enumeration callback sites", n, 3)
+	c.Min("O7 enumeration callback sites", n, 1)
 }
 
 // ---- O8: serialisation of a shard
@@ -982,11 +1229,10 @@ func c15Serialise(c *an.Ctx) {
 			ok, why := false, "the name is not linkNamePrefix(slot) + label"
 			var slot ssa.Value
 			if b, isB := nm.(*ssa.BinOp); isB && b.Op == token.ADD {
-				if pc, isP := an.IsCallTo(b.X, an.M(c15H, "Shard", "linkNamePrefix")); isP && an.Recv(pc) == ssa.Value(recv) {
+				if pc, isP := an.IsCallTo(b.X, c15M("linkNamePrefix")); isP && an.Recv(pc) == ssa.Value(recv) {
 					slot = an.Args(pc)[0]
 					why = "the prefix is not that of the slot tested with childer.has on this path"
-					hasTrue := an.CallEdges(f, an.M(c15H, "childer", "has"), 0, func(v ssa.Value) bool { return v == slot }, true)
-					if len(hasTrue) > 0 && an.GuardedBy(f, nil, a, hasTrue) {
+					if c15GuardedByHas(p.Methods(c15H, "Shard"), f, a, slot, 0) {
 						why = "the label is neither the key of the child whose Link() is written nor the written link's own name cut at maxpadlen"
 						// label
 						if fl, base := an.LoadedField(b.Y); fl == fKey {
@@ -1009,10 +1255,10 @@ func c15Serialise(c *an.Ctx) {
 			// the written child/link is taken at the dense slice counter
 			var at ssa.Value
 			if lc, isL := an.IsCallTo(lk, an.M(c15H, "Shard", "Link")); isL {
-				if cc, isC := an.IsCallTo(an.Recv(lc), an.M(c15H, "childer", "child")); isC {
+				if cc, isC := an.IsCallTo(an.Recv(lc), c15M("child")); isC {
 					at = an.Args(cc)[0]
 				}
-			} else if cc, isC := an.IsCallTo(lk, an.M(c15H, "childer", "link")); isC {
+			} else if cc, isC := an.IsCallTo(lk, c15M("link")); isC {
 				at = an.Args(cc)[0]
 			}
 			if slot == nil {
@@ -1023,7 +1269,7 @@ func c15Serialise(c *an.Ctx) {
 				whyAt = "the slice position is the table index itself"
 				if at != slot {
 					whyAt = "the slice counter is not advanced exactly on the has()==true paths"
-					okAt = c15DenseCounter(f, at, slot)
+					okAt = c15Dense(p.Methods(c15H, "Shard"), f, at, slot, 0)
 				}
 			}
 			c.Check(okAt, "O8", "R-FLOW", name, an.Callee(a).Name+":child-at-dense-slice-counter", a.Pos(),
@@ -1049,7 +1295,52 @@ func c15Serialise(c *an.Ctx) {
 				"the UnixFS data written for a shard does not carry its own childer.bitfield and tableSize: after a reload the links are matched with the wrong slots / hashed with the wrong width")
 		}
 	}
-	c.Min("O8 links written by Shard.Node", nAdd, 2)
+	c.Min("O8 links written by Shard.Node", nAdd, 1)
+}
+
+// c15GuardedByHas: `at` in f is reached only where childer.has(slot) was true;
+// when slot is a parameter of the helper f, at every call site for the actual slot.
+func c15GuardedByHas(fns []*ssa.Function, f *ssa.Function, at ssa.Instruction, slot ssa.Value, depth int) bool {
+	hasTrue := an.CallEdges(f, c15M("has"), 0, func(v ssa.Value) bool { return v == slot }, true)
+	if len(hasTrue) > 0 && an.GuardedBy(f, nil, at, hasTrue) {
+		return true
+	}
+	par, ok := slot.(*ssa.Parameter)
+	if !ok || par.Parent() != f || depth >= 2 {
+		return false
+	}
+	sites := an.LocalCallers(fns, f)
+	if len(sites) == 0 {
+		return false
+	}
+	for _, cs := range sites {
+		a := an.ArgAt(cs, an.ParamIndex(f, par))
+		if a == nil || !c15GuardedByHas(fns, cs.Parent(), cs, a, depth+1) {
+			return false
+		}
+	}
+	return true
+}
+
+// c15Dense: see c15DenseCounter; when counter and slot are parameters of the
+// helper f the relation is established at its call sites.
+func c15Dense(fns []*ssa.Function, f *ssa.Function, ctr, slot ssa.Value, depth int) bool {
+	pc, ok1 := ctr.(*ssa.Parameter)
+	ps, ok2 := slot.(*ssa.Parameter)
+	if ok1 && ok2 && pc.Parent() == f && ps.Parent() == f && depth < 2 {
+		sites := an.LocalCallers(fns, f)
+		if len(sites) == 0 {
+			return false
+		}
+		for _, cs := range sites {
+			ac, as := an.ArgAt(cs, an.ParamIndex(f, pc)), an.ArgAt(cs, an.ParamIndex(f, ps))
+			if ac == nil || as == nil || ac == as || !c15Dense(fns, cs.Parent(), ac, as, depth+1) {
+				return false
+			}
+		}
+		return true
+	}
+	return c15DenseCounter(f, ctr, slot)
 }
 
 // c15DenseCounter: ctr is a loop-carried counter that is incremented by one
@@ -1059,7 +1350,7 @@ func c15DenseCounter(f *ssa.Function, ctr, slot ssa.Value) bool {
 	if !ok {
 		return false
 	}
-	hasCalls := an.Calls(f, an.M(c15H, "childer", "has"))
+	hasCalls := an.Calls(f, c15M("has"))
 	var has ssa.CallInstruction
 	for _, h := range hasCalls {
 		if an.Args(h)[0] == slot {
@@ -1069,7 +1360,7 @@ func c15DenseCounter(f *ssa.Function, ctr, slot ssa.Value) bool {
 	if has == nil {
 		return false
 	}
-	hasTrue := an.CallEdges(f, an.M(c15H, "childer", "has"), 0, func(v ssa.Value) bool { return v == slot }, true)
+	hasTrue := an.CallEdges(f, c15M("has"), 0, func(v ssa.Value) bool { return v == slot }, true)
 	blocked := map[ssa.Instruction]bool{has: true}
 	okAll, nInc := true, 0
 	seen := map[*ssa.Phi]bool{}
@@ -1125,8 +1416,21 @@ func c15DenseCounter(f *ssa.Function, ctr, slot ssa.Value) bool {
 // ---- O9: reload
 func c15Reload(c *an.Ctx) {
 	p := c.P
-	load := p.Func(c15H, "", "NewHamtFromDag")
-	mk := p.Func(c15H, "childer", "makeChilder")
+	var load, mk *ssa.Function
+	for _, f := range p.Methods(c15H, "childer") {
+		for _, bc := range an.AllCalls(f) {
+			if an.Callee(bc).Name == "SetBytes" && strings.Contains(an.Callee(bc).Pkg, "go-bitfield") {
+				mk = f
+			}
+		}
+	}
+	if mk != nil {
+		for _, f := range p.PkgFuncs(c15H) {
+			if f.Parent() == nil && len(an.LocalCallers([]*ssa.Function{f}, mk)) > 0 {
+				load = f
+			}
+		}
+	}
 	fCh, fLn, fBf := p.Field(c15H, "childer", "children"), p.Field(c15H, "childer", "links"), p.Field(c15H, "childer", "bitfield")
 	if !c.Need(load != nil && mk != nil && fCh != nil && fLn != nil && fBf != nil, "NewHamtFromDag, childer.makeChilder") {
 		return
@@ -1148,7 +1452,7 @@ func c15Reload(c *an.Ctx) {
 		return nil
 	}
 	var fsn ssa.Value
-	for _, ms := range an.Calls(load, an.M(c15H, "", "makeShard"), an.M(c15H, "", "NewShard")) {
+	for _, ms := range an.Calls(load, c15M("makeShard"), an.M(c15H, "", "NewShard")) {
 		fo := from(an.Args(ms)[1], isFS("Fanout"))
 		c.Check(fo != nil, "O9", "R-FLOW", name, "makeShard(size=node.Fanout())", ms.Pos(),
 			"a loaded shard gets the fanout recorded in its node",
@@ -1224,5 +1528,150 @@ func c15Reload(c *an.Ctx) {
 		c.Check(okLen && okLinks && okBits, "O9", "R-FLOW", an.FuncName(mk), "children=len(links),links,bitfield=data", mk.Pos(),
 			"makeChilder sizes children by the link count, keeps the links and loads the bitfield",
 			fmt.Sprintf("childer.makeChilder does not set children to len(links) entries (%v), links to the given links (%v) and the bitfield to the given bytes (%v): slice indices derived from the bitfield do not address the loaded links", okLen, okLinks, okBits))
+	}
+}
+
+// c15InsertFn finds childer.insert by role: the childer method that grows the
+// children slice with slices.Insert.
+func c15InsertFn(c *an.Ctx) *ssa.Function {
+	if f := c.P.Func(c15H, "childer", "insert"); f != nil {
+		return f
+	}
+	fCh := c.P.Field(c15H, "childer", "children")
+	var found *ssa.Function
+	for _, f := range c.P.Methods(c15H, "childer") {
+		for _, st := range an.FieldStores(f, fCh) {
+			if op, _ := c15SliceOp(st.Val); op == "Insert" && c15LinkParam(f) != nil {
+				if found != nil && found != f {
+					return nil
+				}
+				found = f
+			}
+		}
+	}
+	return found
+}
+
+// ---- role-based anchors for the unexported primitives of package hamt:
+// resolved by conventional name first, by signature/body role when renamed.
+
+var c15Roles = map[string]*ssa.Function{}
+
+func c15RoleFn(role string) *ssa.Function { return c15Roles[role] }
+
+// c15M is the callee matcher of a role (falls back to the conventional name,
+// which then simply matches nothing).
+func c15M(role string) an.Matcher {
+	conv := map[string][2]string{
+		"childLinkType": {"Shard", "childLinkType"}, "isValueNode": {"Shard", "isValueNode"}, "linkNamePrefix": {"Shard", "linkNamePrefix"},
+		"child": {"childer", "child"}, "has": {"childer", "has"}, "length": {"childer", "length"}, "link": {"childer", "link"}, "rm": {"childer", "rm"},
+		"set": {"childer", "set"}, "setLink": {"childer", "setLink"}, "sliceIndex": {"childer", "sliceIndex"},
+		"makeShard": {"", "makeShard"}, "newConsumedHashBits": {"", "newConsumedHashBits"},
+	}[role]
+	if f := c15Roles[role]; f != nil {
+		return an.M(c15H, conv[0], f.Name())
+	}
+	return an.M(c15H, conv[0], conv[1])
+}
+
+func c15ResolveRoles(c *an.Ctx) {
+	p := c.P
+	c15Roles = map[string]*ssa.Function{}
+	fCh, fLn := p.Field(c15H, "childer", "children"), p.Field(c15H, "childer", "links")
+	fPad := p.Field(c15H, "Shard", "prefixPadStr")
+	sig := func(f *ssa.Function) (params []types.Type, results []types.Type) {
+		ps := f.Signature.Params()
+		for i := 0; i < ps.Len(); i++ {
+			params = append(params, ps.At(i).Type())
+		}
+		rs := f.Signature.Results()
+		for i := 0; i < rs.Len(); i++ {
+			results = append(results, rs.At(i).Type())
+		}
+		return
+	}
+	isInt := func(t types.Type) bool { b, ok := t.Underlying().(*types.Basic); return ok && b.Kind() == types.Int }
+	isBool := func(t types.Type) bool { b, ok := t.Underlying().(*types.Basic); return ok && b.Kind() == types.Bool }
+	isShard := func(t types.Type) bool { return an.TypeIs(t, c15H, "Shard") }
+	isLink := func(t types.Type) bool { return an.TypeIs(t, "github.com/ipfs/go-ipld-format", "Link") }
+	callsBitfield := func(f *ssa.Function, name string) bool {
+		for _, call := range an.AllCalls(f) {
+			if ci := an.Callee(call); ci.Name == name && strings.Contains(ci.Pkg, "go-bitfield") {
+				return true
+			}
+		}
+		return false
+	}
+	type role struct {
+		name, recv, conv string
+		pred             func(f *ssa.Function, ps, rs []types.Type) bool
+	}
+	roles := []role{
+		{"childLinkType", "Shard", "childLinkType", func(f *ssa.Function, ps, rs []types.Type) bool {
+			return len(rs) == 2 && an.TypeIs(rs[0], c15H, "linkType") && an.IsErrorType(rs[1])
+		}},
+		{"isValueNode", "Shard", "isValueNode", func(f *ssa.Function, ps, rs []types.Type) bool { return len(ps) == 0 && len(rs) == 1 && isBool(rs[0]) }},
+		{"linkNamePrefix", "Shard", "linkNamePrefix", func(f *ssa.Function, ps, rs []types.Type) bool {
+			return len(ps) == 1 && isInt(ps[0]) && len(rs) == 1 && an.IsString(rs[0]) && fPad != nil && len(an.FieldReads(f, fPad)) > 0
+		}},
+		{"child", "childer", "child", func(f *ssa.Function, ps, rs []types.Type) bool {
+			return len(ps) == 1 && isInt(ps[0]) && len(rs) == 1 && isShard(rs[0])
+		}},
+		{"link", "childer", "link", func(f *ssa.Function, ps, rs []types.Type) bool {
+			return len(ps) == 1 && isInt(ps[0]) && len(rs) == 1 && isLink(rs[0])
+		}},
+		{"has", "childer", "has", func(f *ssa.Function, ps, rs []types.Type) bool {
+			return len(ps) == 1 && isInt(ps[0]) && len(rs) == 1 && isBool(rs[0]) && callsBitfield(f, "Bit")
+		}},
+		{"length", "childer", "length", func(f *ssa.Function, ps, rs []types.Type) bool { return len(ps) == 0 && len(rs) == 1 && isInt(rs[0]) }},
+		{"sliceIndex", "childer", "sliceIndex", func(f *ssa.Function, ps, rs []types.Type) bool {
+			return len(ps) == 1 && isInt(ps[0]) && len(rs) == 1 && isInt(rs[0]) && callsBitfield(f, "OnesBefore")
+		}},
+		{"rm", "childer", "rm", func(f *ssa.Function, ps, rs []types.Type) bool {
+			for _, st := range an.FieldStores(f, fCh) {
+				if op, _ := c15SliceOp(st.Val); op == "Delete" {
+					return true
+				}
+			}
+			return false
+		}},
+		{"set", "childer", "set", func(f *ssa.Function, ps, rs []types.Type) bool {
+			return len(ps) == 2 && isShard(ps[0]) && isInt(ps[1]) && len(rs) == 0 && len(c15ElemStores(f, fCh)) > 0 && len(c15ElemStores(f, fLn)) > 0
+		}},
+		{"setLink", "childer", "setLink", func(f *ssa.Function, ps, rs []types.Type) bool {
+			return len(ps) == 2 && isLink(ps[0]) && isInt(ps[1]) && len(rs) == 0 && len(c15ElemStores(f, fCh)) > 0
+		}},
+		{"makeShard", "", "makeShard", func(f *ssa.Function, ps, rs []types.Type) bool {
+			return fPad != nil && len(an.FieldStores(f, fPad)) > 0
+		}},
+		{"newConsumedHashBits", "", "newConsumedHashBits", func(f *ssa.Function, ps, rs []types.Type) bool {
+			return len(ps) == 2 && an.IsString(ps[0]) && isInt(ps[1]) && len(rs) == 1 && an.TypeIs(rs[0], c15H, "hashBits")
+		}},
+	}
+	for _, r := range roles {
+		if f := p.Func(c15H, r.recv, r.conv); f != nil {
+			c15Roles[r.name] = f
+			continue
+		}
+		var cands []*ssa.Function
+		if r.recv == "" {
+			for _, f := range p.PkgFuncs(c15H) {
+				if f.Parent() == nil && f.Signature.Recv() == nil {
+					cands = append(cands, f)
+				}
+			}
+		} else {
+			cands = p.Methods(c15H, r.recv)
+		}
+		var found []*ssa.Function
+		for _, f := range cands {
+			ps, rs := sig(f)
+			if r.pred(f, ps, rs) {
+				found = append(found, f)
+			}
+		}
+		if len(found) == 1 {
+			c15Roles[r.name] = found[0]
+		}
 	}
 }
